@@ -44,7 +44,15 @@ Next ==
                 rc == C!CStep(st.c, sc, e, rb, st.p.dropped)
                 rq == Q!QStep(st.q, sc, e)
                 rp == P!PStep(st.p, sc, e, st.c)
-                vs == IF sc.resonly THEN R!RStep(e, st.c) ELSE rc.v \o rq.v \o rp.v \o R!RStep(e, st.c)
+                \* C07 (virtual time only): a receive call that STARTED at an instant after the last
+                \* client write -- the server has been idle in between -- returns empty-handed although a
+                \* complete request is queued and no unblock token can account for it
+                xq == IF /\ e.ev = "RecvRet" /\ e.res = "none" /\ sc.drv = "d1"
+                         /\ st.q.call[e.t + 1].start > st.c.lastSend
+                         /\ st.q.unb - st.q.empt <= 0
+                         /\ C!SomethingQueued(st.c, sc)
+                      THEN <<[p |-> "C07", g |-> "QueuedRequestNotReturned"]>> ELSE <<>>
+                vs == IF sc.resonly THEN R!RStep(e, st.c) ELSE rc.v \o rq.v \o rp.v \o xq \o R!RStep(e, st.c)
             IN /\ st' = [c |-> rc.s, q |-> rq.s, p |-> rp.s]
                /\ sc' = sc
                /\ Report(e, vs)
